@@ -309,6 +309,10 @@ def formula_rules(ctx):
 
 
 def run(ctx):
+    from props import C07
+    ctx.rule('R19.10', 'the filter state is one more representation of a box: what goes in (initiate / update / distance) is '
+                       'the plain coordinates, in the order the state -> box conversion reads them back')
+    ctx.evaluated('R19.10', C07.measurement_rule(ctx, 'R19.10'), 42)
     angle_rule(ctx)
     formula_rules(ctx)
     _ownership(ctx)
